@@ -333,6 +333,105 @@ func serveReturnsClosedAfterClose(fd *ast.FuncDecl) bool {
 	return res
 }
 
+// muxLoopShape: handleX is exactly the loop the Mux model transcribes —
+//   for _, h := range m.<field> { if !h.Match(x) { continue }; if err := h.Handle(...); err != nil { return <error> }; break }; return nil
+func muxLoopShape(fd *ast.FuncDecl, field string) bool {
+	if fd.Body == nil || len(fd.Body.List) != 2 {
+		return false
+	}
+	rs, ok := fd.Body.List[0].(*ast.RangeStmt)
+	if !ok || exprString(rs.X) != "m."+field || rs.Value == nil || rs.Body == nil || len(rs.Body.List) != 3 {
+		return false
+	}
+	if k, isId := rs.Key.(*ast.Ident); !isId || k.Name != "_" {
+		return false
+	}
+	h := exprString(rs.Value)
+	// if !h.Match(x) { continue }
+	skip, ok := rs.Body.List[0].(*ast.IfStmt)
+	if !ok || skip.Init != nil || skip.Else != nil || len(skip.Body.List) != 1 {
+		return false
+	}
+	neg, ok := skip.Cond.(*ast.UnaryExpr)
+	if !ok || neg.Op != token.NOT {
+		return false
+	}
+	mc, ok := neg.X.(*ast.CallExpr)
+	if !ok || exprString(mc.Fun) != h+".Match" || len(mc.Args) != 1 {
+		return false
+	}
+	if br, isBr := skip.Body.List[0].(*ast.BranchStmt); !isBr || br.Tok != token.CONTINUE || br.Label != nil {
+		return false
+	}
+	// if err := h.Handle(...); err != nil { return <non-nil> }
+	hd, ok := rs.Body.List[1].(*ast.IfStmt)
+	if !ok || hd.Init == nil || hd.Else != nil || len(hd.Body.List) != 1 {
+		return false
+	}
+	as, ok := hd.Init.(*ast.AssignStmt)
+	if !ok || len(as.Lhs) != 1 || len(as.Rhs) != 1 {
+		return false
+	}
+	hc, ok := as.Rhs[0].(*ast.CallExpr)
+	if !ok || exprString(hc.Fun) != h+".Handle" {
+		return false
+	}
+	// the envelope handed to Handle is the one Match was asked about
+	found := false
+	for _, a := range hc.Args {
+		if exprString(a) == exprString(mc.Args[0]) && exprString(a) != "?" {
+			found = true
+		}
+	}
+	if !found {
+		return false
+	}
+	cond, ok := hd.Cond.(*ast.BinaryExpr)
+	if !ok || cond.Op != token.NEQ || exprString(cond.X) != exprString(as.Lhs[0]) || exprString(cond.Y) != "nil" {
+		return false
+	}
+	ret, ok := hd.Body.List[0].(*ast.ReturnStmt)
+	if !ok || len(ret.Results) != 1 || exprString(ret.Results[0]) == "nil" {
+		return false
+	}
+	// break
+	if br, isBr := rs.Body.List[2].(*ast.BranchStmt); !isBr || br.Tok != token.BREAK || br.Label != nil {
+		return false
+	}
+	// return nil
+	last, ok := fd.Body.List[1].(*ast.ReturnStmt)
+	return ok && len(last.Results) == 1 && exprString(last.Results[0]) == "nil"
+}
+
+// nilPredicateMatches: Match is `if h.predicate == nil { return true }; return h.predicate(x)` with x the parameter.
+func nilPredicateMatches(fd *ast.FuncDecl) bool {
+	if fd.Body == nil || len(fd.Body.List) != 2 || fd.Recv == nil || len(fd.Recv.List) != 1 || len(fd.Recv.List[0].Names) != 1 {
+		return false
+	}
+	if fd.Type.Params == nil || len(fd.Type.Params.List) != 1 || len(fd.Type.Params.List[0].Names) != 1 {
+		return false
+	}
+	r, x := fd.Recv.List[0].Names[0].Name, fd.Type.Params.List[0].Names[0].Name
+	is, ok := fd.Body.List[0].(*ast.IfStmt)
+	if !ok || is.Init != nil || is.Else != nil || len(is.Body.List) != 1 {
+		return false
+	}
+	c, ok := is.Cond.(*ast.BinaryExpr)
+	if !ok || c.Op != token.EQL || exprString(c.X) != r+".predicate" || exprString(c.Y) != "nil" {
+		return false
+	}
+	rt, ok := is.Body.List[0].(*ast.ReturnStmt)
+	if !ok || len(rt.Results) != 1 || exprString(rt.Results[0]) != "true" {
+		return false
+	}
+	last, ok := fd.Body.List[1].(*ast.ReturnStmt)
+	if !ok || len(last.Results) != 1 {
+		return false
+	}
+	call, ok := last.Results[0].(*ast.CallExpr)
+	return ok && exprString(call.Fun) == r+".predicate" && len(call.Args) == 1 && exprString(call.Args[0]) == x
+}
+
 func leanBool(b bool) string {
 	if b {
 		return "true"
